@@ -8,6 +8,7 @@ from .. import gens
 
 TABLES = os.path.join(VERIF, ".work", "generated_tables.json")
 
+MA_KINDS_BY_CODE = ["sma", "wma", "hma", "rma", "ema", "dma", "dema", "tma", "tema", "wsma", "smm", "swma", "trima", "linreg", "vidya"]
 MA_KINDS = ["sma", "wma", "hma", "rma", "ema", "dma", "tma", "dema", "tema", "wsma", "smm", "swma", "trima", "linreg", "vidya"]
 SOURCES = ["close", "high", "low", "tp", "hl2", "open", "volume", "volumed_price"]
 
@@ -195,7 +196,11 @@ DIRECTED = {"ChaikinOscillator": [[("window", "1")], [("window", "5")]],
             "PriceChannelStrategy": [[("sigma", "0.5")]],
             "AverageDirectionalIndex": [[("period1", "2")]],
             # zone thresholds that fall between two window positions (period x zone has a fractional part >= 0.5)
-            "Aroon": [[("period", "9"), ("signal_zone", "0.3")], [("period", "20"), ("signal_zone", "0.33")]]}
+            "Aroon": [[("period", "9"), ("signal_zone", "0.3")], [("period", "20"), ("signal_zone", "0.33")]],
+            # parameters whose defaults coincide (l2 = m = 26): a slip that reads the other one shows only when they differ
+            "IchimokuCloud": [[("m", "5")], [("l1", "4"), ("l2", "7"), ("l3", "11"), ("m", "3")]],
+            "Envelopes": [[("source2", "open"), ("k", "0.004")], [("source", "hl2"), ("source2", "high"), ("k", "0.003")]],
+            "ChandeKrollStop": [[("x", "0.5")], [("x", "2.5"), ("q", "3")]]}
 
 
 MA_KINDS = ["sma", "wma", "hma", "rma", "ema", "dma", "dema", "tma", "tema", "wsma", "smm", "swma", "trima", "linreg", "vidya"]
@@ -210,9 +215,21 @@ def ma_kind_configs(t, period=9):
     return [[(fs[0], "%s-%d" % (k, period))] for k in MA_KINDS]
 
 
+def source_field_configs(t):
+    """one configuration per Source-typed parameter with that parameter moved away from its default (and from the other
+    Source parameters, which keep theirs): a slip that reads the wrong source field shows only then"""
+    out = []
+    for f in t["fields"]:
+        if f["public"] and f["ty"] == "Source":
+            dflt = str(t.get("defaults", {}).get(f["name"], "")).lower()
+            alt = "open" if "open" not in dflt else "high"
+            out.append([(f["name"], alt)])
+    return out
+
+
 def configs(t, rng, n_random):
-    """default + directed + n_random random configurations (as set lists)"""
-    out = [[]] + [list(x) for x in DIRECTED.get(t["config"], [])]
+    """default + directed + one per Source parameter + n_random random configurations (as set lists)"""
+    out = [[]] + [list(x) for x in DIRECTED.get(t["config"], [])] + source_field_configs(t)
     for _ in range(n_random):
         out.append(random_config(t, rng, 1 + rng.below(3)))
     return out
